@@ -7,7 +7,7 @@
 // exactly as the decoded character would not).  Real nom on 4 symbolic bytes of a FEN rank cost CBMC 26 GB (DESIGN 1).
 // ASSUMPTION recorded by every obligation that uses it: the nom crate's combinators behave as documented
 // (https://docs.rs/nom/7): one_of / char / tag consume the matched prefix, alt tries in order and backtracks on Error,
-// many1 applies until the first Error and needs one success, opt turns Error into None, tuple / pair / preceded /
+// many1 applies until the first Error and needs one success, separated_list1 is f (sep f)* and leaves a dangling separator unconsumed, opt turns Error into None, tuple / pair / preceded /
 // terminated sequence, value / map transform, space0 / space1 take spaces and tabs, eof succeeds on empty input, u32 reads a
 // decimal numeral that fits.  `Vec` as produced by many1 / vec! is a bounded vector (capacity stated per obligation; inputs
 // that would exceed it are outside the stated bound -- excluded by assumption, never reported).
@@ -386,6 +386,35 @@ pub mod gnom {
     }
     pub mod multi {
         use super::*;
+        /// separated_list1(sep, f): f (sep f)*; stops -- without consuming the separator -- where `sep f` no longer matches
+        pub fn separated_list1<'a, O: Copy + Default, O2, S, F>(mut sep: S, mut f: F) -> impl FnMut(&'a str) -> IResult<&'a str, Vec<O>>
+        where
+            S: FnMut(&'a str) -> IResult<&'a str, O2>,
+            F: FnMut(&'a str) -> IResult<&'a str, O>,
+        {
+            move |i0: &'a str| {
+                let mut out = Vec::new();
+                let (mut i, first) = f(i0)?;
+                out.push(first);
+                loop {
+                    match sep(i) {
+                        Result::Err(Err::Error(_)) => return Ok((i, out)),
+                        Result::Err(e) => return Result::Err(e),
+                        Ok((i1, _)) => match f(i1) {
+                            Result::Err(Err::Error(_)) => return Ok((i, out)),
+                            Result::Err(e) => return Result::Err(e),
+                            Ok((i2, o)) => {
+                                if i2.len() == i.len() {
+                                    return fail(i, ErrorKind::Many1);
+                                }
+                                out.push(o);
+                                i = i2;
+                            }
+                        },
+                    }
+                }
+            }
+        }
         /// many1(p): applies p until its first Error; at least one success; a success that consumes nothing is an error
         pub fn many1<'a, O: Copy + Default, F>(mut p: F) -> impl FnMut(&'a str) -> IResult<&'a str, Vec<O>>
         where
